@@ -31,7 +31,7 @@ func init() {
 		Batches: func(tier string) int { return map[string]int{"quick": 16, "thorough": 48}[tier] },
 		Run:     run,
 		Rule: "cases: all trees with up to 4 nodes over the kind alphabet {nil, bool, int64, float64, string, time.Time, json.Number, []any, map[string]any} (every kind x container shape), generated trees with nested empty containers and nil members, and number/escape-heavy JSON texts; " +
-			"Generify->Simplify, GenAlter->Alter, Dup, Decompose (null-keeping options), Node.Dup must preserve the value; oj/sen/pretty writers must give identical text for a gen tree and its simple twin; gen.Parser output must equal Generify(oj.Parser output); " +
+			"Generify->Simplify, GenAlter->Alter, Dup, Decompose (null-keeping options), Node.Dup must preserve the value, also when the data sits in typed Go containers ([]map[string]any, [][]any, []int64, []string, map[string]T) reached by reflection; oj/sen/pretty writers must give identical text for a gen tree and its simple twin; gen.Parser output must equal Generify(oj.Parser output); " +
 			"the copying operations must share no map or slice with their input (pointer walk) and mutating every container of either side must not change the other (mutate-after-copy, both directions). non-trivial: a tree with at least one container; distinct: enumerated trees by construction, others by digest",
 		Assumptions: []string{
 			"the in-place variants Alter and GenAlter are documented to reuse their input and are exempt from the alias check",
